@@ -211,6 +211,12 @@ def run_unit(repo, unit, builddir, tier):
         for d in r['failures']:
             ol = d['line']
             src = sp.linemap[ol - 1] if ol and ol - 1 < len(sp.linemap) else None
+            if not src:
+                # an inserted (ghost) line: name the /repo location of the function it belongs to
+                for f in sp.functions:
+                    if f.get('role') in ('main', 'helper') and f['item'].split('::')[-1] == d['function']:
+                        src = (f['file'], f['line_start'])
+                        break
             loc = '%s:%d' % src if src else '%s:%d' % (os.path.basename(main_path), ol or 0)
             fails.append({'obligation': '%s::%s::%s@%s' % (name, d['function'], d['kind'], loc),
                           'kind': d['kind'], 'function': d['function'], 'repo_loc': loc if src else None,
